@@ -175,22 +175,24 @@ def isMonthToken : Field → Bool
   | .Month | .MonthName _ => true
   | _ => false
 
-/-- Condition on ONE item, given the items `later` and the text `rest` that follow it.
+/-- Condition on ONE item, given the items `later` and the text `rest` that follow it.  Each clause is needed
+    (the counterexamples are checked against the crate's parser in Lemmas/ReadingExamples):
     (a) a number (or fraction) with fewer digits than the token may take is not followed directly by a digit –
-        otherwise the reader takes that digit too;
-    (b) an abbreviated month name is not followed by the remaining letters of the full name – otherwise the reader
-        takes the full name;
-    (c) after a token that was left out because the text ended, everything is left out (or an empty blank token);
-    (d) a left-out meridian indicator is not followed by `HH24` or another meridian token (the crate forgets that it
-        saw the token, see the report). -/
+        otherwise the reader takes that digit too.  `HH24MI` on "123", meant as 1:23, is read as 12:03; `FF3SS` on "57",
+        meant as .5 s + 7 s, is read as .57 s.  Note that `YY` takes up to FOUR digits: `YYMMDD` on "240305" is not
+        delimited (the crate reads the year 2403 and then fails).
+    (b) an abbreviated month name is not followed by the remaining letters of the full name – otherwise the reader takes
+        the full name ("Mar" + "ch…").  No sequence of fitting lexemes produces such a text with the crate's English
+        names, so this clause excludes nothing; it keeps the proof independent of the spelling of the names.
+    (c) after a token that was left out because the text ended, everything is left out (or a blank token).
+        `MI SS` on "5", meant as "minute left out, second 5", is read as minute 5. -/
 def itemOK (ty : Ty) (f : Field) (l : Lex) (later : List (Field × Lex)) (rest : Bytes) : Bool :=
   match l with
   | .num _ _ z n => numWidth z n == maxDigits ty f || !nextIsDigit rest
   | .frac _ ds => ds.length == maxDigits ty f || !nextIsDigit rest
   | .name _ k true _ =>
     !isMonthToken f || (fullName f k).length ≤ 3 || !startsWithCI rest ((fullName f k).drop 3)
-  | .omitted =>
-    later.all (fun q => match q.2 with | .omitted => true | .blank _ => true | _ => false)
+  | .omitted => later.all (fun q => match q.2 with | .omitted => true | .blank _ => true | _ => false)
   | _ => true
 
 def delimitedFrom (ty : Ty) : List (Field × Lex) → Bool
@@ -311,48 +313,52 @@ def timeOf (p : Parts) : Option Nat :=
 def monthOfOrdinal (y n : Int) : Int :=
   ((((List.range 12).filter (fun (k : Nat) => daysBeforeMonth y ((k : Int) + 1) < n)).length : Nat) : Int)
 
-/-- The calendar date: year and month default to the clock's, the day to 1; a day of year must lie in the year and
-    agree with month / day if those are written too, else it supplies them; the date must be a real date of the
-    years 1..9999; a weekday must be the weekday of that date. -/
+/-- Month and day within year `y`: written month (else the clock's) and written day (else 1); or – with a day of year –
+    the month and day it falls on: it must lie in the year and agree with a written month / day. -/
+def monthDayOf (p : Parts) (now : Clock) (y : Int) : Option (Int × Int) :=
+  match p.doy with
+  | none => some ((p.month.map Int.ofNat).getD now.month, ((p.day.getD 1 : Nat) : Int))
+  | some n =>
+    if ¬ (1 ≤ n ∧ n ≤ (if isLeap y then 366 else 365)) then none else
+    let m := monthOfOrdinal y n
+    let d := (n : Int) - daysBeforeMonth y m
+    if p.month.all (fun (x : Nat) => (x : Int) = m) ∧ p.day.all (fun (x : Nat) => (x : Int) = d) then some (m, d) else none
+
+/-- The calendar date: the year defaults to the clock's; the date must be a real date of the years 1..9999; a weekday
+    must be the weekday of that date. -/
 def dateOf (p : Parts) (now : Clock) : Option (Int × Int × Int) :=
   let y := p.year.getD now.year
   if ¬ (1 ≤ y ∧ y ≤ 9999) then none else
-  let md : Option (Int × Int) :=
-    match p.doy with
-    | none => some ((p.month.map Int.ofNat).getD now.month, ((p.day.getD 1 : Nat) : Int))
-    | some n =>
-      if ¬ (1 ≤ n ∧ n ≤ (if isLeap y then 366 else 365)) then none else
-      let m := monthOfOrdinal y n
-      let d := (n : Int) - daysBeforeMonth y m
-      if p.month.all (fun x => (x : Int) = m) ∧ p.day.all (fun x => (x : Int) = d) then some (m, d) else none
-  match md with
+  match monthDayOf p now y with
   | none => none
   | some (m, d) =>
     if ¬ IsDate y m d then none
-    else if p.dow.all (fun w => weekday (dayNumber y m d) + 1 = (w : Int)) then some (y, m, d) else none
+    else if p.dow.all (fun (w : Nat) => weekday (dayNumber y m d) + 1 = (w : Int)) then some (y, m, d) else none
 
 /-- Last microsecond of 9999-12-31. -/
 def maxTimestamp : Int := 253402300799999999
 
-/-- The value (raw representation: days / microseconds / months) from the collected components. -/
+/-- The value (raw representation: days / microseconds / months) from the collected components.
+    (Products are written constant-first: this keeps the Lean kernel's evaluation of these terms shallow.) -/
 def assemble (ty : Ty) (now : Clock) (p : Parts) : Option Int :=
   match ty with
   | .D => (dateOf p now).map (fun (y, m, d) => dayNumber y m d)
   | .T => (timeOf p).bind (fun t => if t < 86400000000 then some (t : Int) else none)  -- a carry to 24:00:00 is out of range
   | .TS | .OD =>
     (dateOf p now).bind (fun (y, m, d) => (timeOf p).bind (fun t =>
-      let v := dayNumber y m d * 86400000000 + (t : Int)                              -- the carry may reach the next day
+      let v := 86400000000 * dayNumber y m d + (t : Int)                              -- the carry may reach the next day
       if v ≤ maxTimestamp then some v else none))
   | .YM =>
     let mag : Int := p.year.getD 0 * 12 + (p.month.getD 0 : Nat)
     if p.month.getD 0 < 12 ∧ mag ≤ 2136000000 then some (if p.neg then -mag else mag) else none
   | .DT =>
     (timeOf p).bind (fun t =>
-      let mag : Int := ((p.day.getD 0 * 86400000000 + t : Nat) : Int)
-      if mag ≤ 8640000000000000000 then some (if p.neg then -mag else mag) else none)
+      let mag : Nat := 86400000000 * p.day.getD 0 + t
+      if mag ≤ 8640000000000000000 then some (if p.neg then -(mag : Int) else (mag : Int)) else none)
 
 /-- The value the reading `items` denotes for type `ty` under clock `now`; `none` = the documentation says error. -/
 def denote (ty : Ty) (items : List (Field × Lex)) (now : Clock) : Option Int :=
   (collect ty now {} items).bind (assemble ty now)
 
 end SqlDt.Spec
+
